@@ -45,11 +45,16 @@ type kvAddData struct {
 // AddVertex adds an edge to the graph, if it already exists
 // in the graph, it is replaced
 func (kgdb *KVInterfaceGDB) AddVertex(vertices []*gdbi.Vertex) error {
+	for _, vert := range vertices {
+		if err := kgdb.removeStaleVertex(vert.ToVertex()); err != nil {
+			return err
+		}
+	}
 	err := kgdb.kvg.kv.BulkWrite(func(tx kvi.KVBulkWrite) error {
 		var bulkErr *multierror.Error
 		inserted := 0
 		for _, vert := range vertices {
-			if err := kgdb.insertVertex(tx, vert.ToVertex()); err != nil {
+			if err := insertVertex(tx, kgdb.kvg.idx, kgdb.graph, vert.ToVertex()); err != nil {
 				bulkErr = multierror.Append(bulkErr, err)
 			} else {
 				inserted++
@@ -92,29 +97,33 @@ func (kgdb *KVInterfaceGDB) findEdgeKey(eid string) []byte {
 	return ekey
 }
 
-func (kgdb *KVInterfaceGDB) insertVertex(tx kvi.KVBulkWrite, vertex *gripql.Vertex) error {
+// removeStaleVertex prepares the replacement of a stored vertex: a vertex
+// stored under another label loses its old label-index entry. It writes to
+// the store, so it must not be called inside a BulkWrite.
+func (kgdb *KVInterfaceGDB) removeStaleVertex(vertex *gripql.Vertex) error {
 	if err := vertex.Validate(); err != nil {
-		return err
+		return nil
 	}
-	// a vertex stored under another label is replaced: drop its old label-index entry
 	if old := kgdb.GetVertex(vertex.Gid, false); old != nil && old.Label != vertex.Label {
 		if err := kgdb.kvg.kv.Delete(labelEntryKey(kgdb.graph, "v", old.Label, vertex.Gid)); err != nil {
 			return fmt.Errorf("AddVertex Error %s", err)
 		}
 	}
-	return insertVertex(tx, kgdb.kvg.idx, kgdb.graph, vertex)
+	return nil
 }
 
-func (kgdb *KVInterfaceGDB) insertEdge(tx kvi.KVBulkWrite, edge *gripql.Edge) error {
+// removeStaleEdge prepares the replacement of a stored edge: the edge key
+// embeds endpoints and label, so an edge stored with other endpoints or
+// another label has to lose its old record. It writes to the store, so it
+// must not be called inside a BulkWrite.
+func (kgdb *KVInterfaceGDB) removeStaleEdge(edge *gripql.Edge) error {
 	if err := edge.Validate(); err != nil {
-		return err
+		return nil
 	}
-	// the edge key embeds endpoints and label: an edge stored with other
-	// endpoints or another label is replaced, so its old record has to go
 	if old := kgdb.findEdgeKey(edge.Gid); old != nil {
 		_, _, sid, did, label, etype := EdgeKeyParse(old)
 		if sid != edge.From || did != edge.To || label != edge.Label {
-			err := kgdb.kvg.kv.Update(func(dtx kvi.KVTransaction) error {
+			return kgdb.kvg.kv.Update(func(dtx kvi.KVTransaction) error {
 				for _, k := range edgeKeys(kgdb.graph, edge.Gid, sid, did, label, etype) {
 					if err := dtx.Delete(k); err != nil {
 						return err
@@ -122,12 +131,9 @@ func (kgdb *KVInterfaceGDB) insertEdge(tx kvi.KVBulkWrite, edge *gripql.Edge) er
 				}
 				return nil
 			})
-			if err != nil {
-				return err
-			}
 		}
 	}
-	return insertEdge(tx, kgdb.kvg.idx, kgdb.graph, edge)
+	return nil
 }
 
 func insertVertex(tx kvi.KVBulkWrite, idx *kvindex.KVIndex, graph string, vertex *gripql.Vertex) error {
@@ -192,11 +198,16 @@ func insertEdge(tx kvi.KVBulkWrite, idx *kvindex.KVIndex, graph string, edge *gr
 // AddEdge adds an edge to the graph, if the id is not "" and in already exists
 // in the graph, it is replaced
 func (kgdb *KVInterfaceGDB) AddEdge(edges []*gdbi.Edge) error {
+	for _, edge := range edges {
+		if err := kgdb.removeStaleEdge(edge.ToEdge()); err != nil {
+			return err
+		}
+	}
 	err := kgdb.kvg.kv.BulkWrite(func(tx kvi.KVBulkWrite) error {
 		var bulkErr *multierror.Error
 		inserted := 0
 		for _, edge := range edges {
-			if err := kgdb.insertEdge(tx, edge.ToEdge()); err != nil {
+			if err := insertEdge(tx, kgdb.kvg.idx, kgdb.graph, edge.ToEdge()); err != nil {
 				bulkErr = multierror.Append(bulkErr, err)
 			} else {
 				inserted++
@@ -210,34 +221,67 @@ func (kgdb *KVInterfaceGDB) AddEdge(edges []*gdbi.Edge) error {
 	return err
 }
 
+// bulkAddBatchSize is the number of streamed elements written in one batch
+const bulkAddBatchSize = 1000
+
 func (kgdb *KVInterfaceGDB) BulkAdd(stream <-chan *gdbi.GraphElement) error {
-	err := kgdb.kvg.kv.BulkWrite(func(tx kvi.KVBulkWrite) error {
-		var bulkErr *multierror.Error
-		inserted := 0
-		for elem := range stream {
+	var bulkErr *multierror.Error
+	batch := make([]*gdbi.GraphElement, 0, bulkAddBatchSize)
+	// the records an element replaces are looked up and removed before the
+	// write batch is opened: the stores do not allow writes or consistent
+	// reads from inside it
+	flush := func() {
+		for _, elem := range batch {
+			var err error
 			if elem.Vertex != nil {
-				if err := kgdb.insertVertex(tx, elem.Vertex.ToVertex()); err != nil {
-					bulkErr = multierror.Append(bulkErr, err)
-				} else {
-					inserted++
-				}
-				continue
+				err = kgdb.removeStaleVertex(elem.Vertex.ToVertex())
+			} else if elem.Edge != nil {
+				err = kgdb.removeStaleEdge(elem.Edge.ToEdge())
 			}
-			if elem.Edge != nil {
-				if err := kgdb.insertEdge(tx, elem.Edge.ToEdge()); err != nil {
-					bulkErr = multierror.Append(bulkErr, err)
-				} else {
-					inserted++
-				}
-				continue
+			if err != nil {
+				bulkErr = multierror.Append(bulkErr, err)
 			}
 		}
-		if inserted > 0 {
-			kgdb.kvg.ts.Touch(kgdb.graph)
+		err := kgdb.kvg.kv.BulkWrite(func(tx kvi.KVBulkWrite) error {
+			inserted := 0
+			for _, elem := range batch {
+				if elem.Vertex != nil {
+					if err := insertVertex(tx, kgdb.kvg.idx, kgdb.graph, elem.Vertex.ToVertex()); err != nil {
+						bulkErr = multierror.Append(bulkErr, err)
+					} else {
+						inserted++
+					}
+					continue
+				}
+				if elem.Edge != nil {
+					if err := insertEdge(tx, kgdb.kvg.idx, kgdb.graph, elem.Edge.ToEdge()); err != nil {
+						bulkErr = multierror.Append(bulkErr, err)
+					} else {
+						inserted++
+					}
+					continue
+				}
+			}
+			if inserted > 0 {
+				kgdb.kvg.ts.Touch(kgdb.graph)
+			}
+			return nil
+		})
+		if err != nil {
+			bulkErr = multierror.Append(bulkErr, err)
 		}
-		return bulkErr.ErrorOrNil()
-	})
-	return err
+		batch = batch[:0]
+	}
+	for elem := range stream {
+		batch = append(batch, elem)
+		if len(batch) >= bulkAddBatchSize {
+			flush()
+		}
+	}
+	if len(batch) > 0 {
+		flush()
+	}
+	return bulkErr.ErrorOrNil()
 }
 
 // DelEdge deletes edge with id `key`
